@@ -70,9 +70,12 @@ def build(cfg):
                                              omega_border_batch_size=None, temporal_batch_size=cfg["bs"], dim=1, min_pts=(0.0,), max_pts=(1.0,),
                                              tmin=0.0, tmax=1.0, cartesian_product=True)
     P = Params(nn_params=u.init_params(), eq_params={"a": jnp.array(1.5), "b": jnp.array(0.5), "c": jnp.array(0.25), "v": jnp.array([0.5, -0.5, 0.25])})
+    infp = bool(cfg.get("inf_param"))
+    if infp:      # a legitimate infinite value among the parameters (a switched-off cap nothing differentiates): infinite is not NaN
+        P = Params(nn_params=P.nn_params, eq_params=dict(P.eq_params, cap=jnp.array(jnp.inf)))
     dkcls = {"ode": jinns.parameters.DerivativeKeysODE, "statio": jinns.parameters.DerivativeKeysPDEStatio,
              "nonstatio": jinns.parameters.DerivativeKeysPDENonStatio}[kind]
-    dk = dkcls.from_str(P, dyn_loss=Params(nn_params=True, eq_params={"a": True, "b": True, "c": False, "v": False}))
+    dk = dkcls.from_str(P, dyn_loss=Params(nn_params=True, eq_params=dict({"a": True, "b": True, "c": False, "v": False}, **({"cap": False} if infp else {}))))
     if kind == "ode":
         L = jinns.loss.LossODE(u=u, dynamic_loss=Eq(), params=P, initial_condition=(0.0, 1.0), derivative_keys=dk)
     elif kind == "statio":
@@ -110,7 +113,7 @@ def build(cfg):
                 return eqx.tree_at(lambda t: t.eq_params["v"], updates, updates.eq_params["v"].at[1].set(jnp.where(bad, jnp.nan, 0.0))), state + 1
             return jax.tree_util.tree_map(lambda x: jnp.where(bad, jnp.nan, x), updates), state + 1
         opt = optax.chain(opt, optax.GradientTransformation(init_fn, update_fn))
-    tracked = Params(nn_params=None, eq_params={"a": True, "b": None, "c": None, "v": None}) if cfg.get("track", True) else None
+    tracked = Params(nn_params=None, eq_params=dict({"a": True, "b": None, "c": None, "v": None}, **({"cap": None} if infp else {}))) if cfg.get("track", True) else None
     validation = None
     v = cfg.get("validation")
     if v and v["type"] == "scripted":
@@ -384,4 +387,4 @@ def base_cfg(rng, kind=None, n=None):
     bs = rng.choice([2, 3])
     return dict(kind=kind, n=n if n is not None else rng.randint(1, 9), nt=rng.choice([bs * 2, bs * 2 + 1, 7]), bs=bs, opt=rng.choice(OPTS),
                 seed=rng.randrange(1 << 20), param_gen=rng.random() < 0.4, obs_gen=(rng.random() < 0.4), track=rng.random() < 0.8,
-                rar=(kind == "ode" and rng.random() < 0.5))
+                rar=(kind == "ode" and rng.random() < 0.5), inf_param=rng.random() < 0.25)
